@@ -5,6 +5,7 @@ package main
 import (
 	"fmt"
 	"reflect"
+	"strings"
 	"time"
 
 	"verifharness/core"
@@ -114,19 +115,7 @@ func regCase(t *Table, req, resp *TNode, reqPtr, respPtr bool) (string, regObs) 
 	}
 	offending(req, "Req", "", &ob.Offending)
 	offending(resp, "Resp", "", &ob.Offending)
-	func() {
-		defer func() {
-			if r := recover(); r != nil {
-				ob.Panic = fmt.Sprint(r)
-			}
-		}()
-		reg := registry.New()
-		err := reg.Register(&dynPlugin{name: "verif/c17", req: zeroOf(req, reqPtr), resp: zeroOf(resp, respPtr)})
-		ob.Registered = err == nil && reg.Plugin("verif/c17") != nil
-		if err != nil {
-			ob.Err = err.Error()
-		}
-	}()
+	register(&ob, zeroOf(req, reqPtr), zeroOf(resp, respPtr))
 	rt, pt := tyTerm(t, req), tyTerm(t, resp)
 	if reqPtr {
 		rt = core.App("TyPtr", rt)
@@ -135,4 +124,198 @@ func regCase(t *Table, req, resp *TNode, reqPtr, respPtr bool) (string, regObs) 
 		pt = core.App("TyPtr", pt)
 	}
 	return fmt.Sprintf("(CReg %s %s %s)", rt, pt, core.B(ob.Registered)), ob
+}
+
+// register runs the real Register on a plugin with these Request()/Response() values.
+func register(ob *regObs, req, resp any) {
+	func() {
+		defer func() {
+			if r := recover(); r != nil {
+				ob.Panic = fmt.Sprint(r)
+			}
+		}()
+		reg := registry.New()
+		err := reg.Register(&dynPlugin{name: "verif/c17", req: req, resp: resp})
+		ob.Registered = err == nil && reg.Plugin("verif/c17") != nil
+		if err != nil {
+			ob.Err = err.Error()
+		}
+	}()
+}
+
+// tyOf abstracts a Go type (of a hand-declared plugin request/response) to a Registry.ty term, with reflect only.
+// It also lists the untagged secret-looking fields it meets (harness bookkeeping for the distribution).
+func tyOf(t *Table, rt reflect.Type, path, ctors string, out *[][2]string, stack map[reflect.Type]bool) string {
+	switch rt.Kind() {
+	case reflect.String:
+		return "TyStr"
+	case reflect.Bool:
+		return "TyBool"
+	case reflect.Interface:
+		return "TyIface"
+	case reflect.Ptr:
+		return core.App("TyPtr", tyOf(t, rt.Elem(), path+"{P}", ctors+"P", out, stack))
+	case reflect.Slice:
+		return core.App("TySlice", tyOf(t, rt.Elem(), path+"{L}", ctors+"L", out, stack))
+	case reflect.Map:
+		return core.App("TyMap", tyOf(t, rt.Elem(), path+"{M}", ctors+"M", out, stack))
+	case reflect.Array:
+		return core.App("TyArray", tyOf(t, rt.Elem(), path+"{A}", ctors+"A", out, stack))
+	case reflect.Struct:
+		if rt == timeType {
+			return "TyTime"
+		}
+		if stack[rt] {
+			panic("recursive type: not expressible as a Registry.ty tree")
+		}
+		stack[rt] = true
+		defer delete(stack, rt)
+		fs := make([]string, rt.NumField())
+		for i := range fs {
+			f := rt.Field(i)
+			tag := parseTag(f.Tag)
+			if looksSecret(f.Name) && tag == TagNone {
+				kind := "S"
+				switch {
+				case f.Anonymous && !f.IsExported():
+					kind = "e" // embedded, unexported type
+				case !f.IsExported():
+					kind = "u"
+				}
+				*out = append(*out, [2]string{path + "." + f.Name, ctors + kind})
+			}
+			c := "S"
+			switch {
+			case f.Anonymous && !f.IsExported():
+				c = "e"
+			case !f.IsExported():
+				c = "u"
+			}
+			fs[i] = core.Pair(fmt.Sprintf("{| t_name := %s; t_secretish := %s; t_tag := %s |}", core.N(t.nameID(f.Name)), core.B(looksSecret(f.Name)), tag.Coq()),
+				tyOf(t, f.Type, path+"."+f.Name, ctors+c, out, stack))
+		}
+		return core.App("TyStruct", core.List(fs))
+	}
+	return "TyNum"
+}
+
+// ---- hand-declared plugin request/response types (what reflect.StructOf cannot build)
+
+type login struct{ Password string } // unexported type, untagged secret-looking exported field
+type loginSecure struct {
+	Password string `coerce:"secure"`
+}
+type loginTagged struct { // like loginSecure, but the embedded field's own name does not look like a secret
+	Password string `coerce:"secure"`
+}
+type loginIgnore struct {
+	Password string `coerce:"ignore"`
+}
+type outer struct{ login } // two levels of embedding, both unexported types
+type outerP struct{ *login }
+type plainInner struct{ Host string }
+
+type RegEmbVal struct { // Password is promoted and serialised
+	login
+	Host string
+}
+type RegEmbPtr struct {
+	*login
+	Host string
+}
+type RegEmbTwo struct {
+	outer
+	Host string
+}
+type RegEmbTwoP struct {
+	*outerP
+	Host string
+}
+type RegEmbSecure struct {
+	loginSecure
+	Host string
+}
+type RegEmbTagged struct {
+	loginTagged
+	*loginIgnore
+	Host string
+}
+type RegNamedOK struct {
+	Host    string
+	Account Creds
+	When    time.Time
+}
+type RegEmbIgnore struct {
+	*loginIgnore
+	Host string
+}
+type RegEmbPlain struct {
+	plainInner
+	Host string
+}
+type RegUnexpField struct { // an ordinary unexported field of struct type holding an untagged Password
+	Host  string
+	inner login
+}
+type RegUnexpPtrField struct {
+	Host  string
+	inner *login
+}
+type RegUnexpLeaf struct { // an ordinary unexported field with a secret-looking name
+	Host     string
+	keyCache map[string]string
+}
+type RegUnexpLeafTagged struct {
+	Host        string
+	tokenSource string `coerce:"ignore"`
+}
+type RegExportedEmb struct { // embedded struct of an EXPORTED type
+	Base
+	Host string
+}
+type RegNamed struct {
+	Host  string
+	Creds Creds // fully tagged named type
+	When  time.Time
+}
+type RegBelowSlice struct { // not followed by the walk: modelled as is
+	Host  string
+	Items []login
+}
+type RegOK struct{ Host string }
+
+func regStatic(w *core.Writer) {
+	types := []struct {
+		name string
+		v    any
+	}{
+		{"RegEmbVal", RegEmbVal{}}, {"*RegEmbVal", &RegEmbVal{}}, {"RegEmbPtr", RegEmbPtr{}}, {"*RegEmbPtr", &RegEmbPtr{}},
+		{"RegEmbTwo", RegEmbTwo{}}, {"RegEmbTwoP", RegEmbTwoP{}}, {"*RegEmbTwoP", &RegEmbTwoP{}},
+		{"RegEmbSecure", RegEmbSecure{}}, {"RegEmbTagged", RegEmbTagged{}}, {"*RegNamedOK", &RegNamedOK{}}, {"RegEmbIgnore", RegEmbIgnore{}}, {"RegEmbPlain", RegEmbPlain{}},
+		{"RegUnexpField", RegUnexpField{}}, {"RegUnexpPtrField", &RegUnexpPtrField{}}, {"RegUnexpLeaf", RegUnexpLeaf{}},
+		{"RegUnexpLeafTagged", RegUnexpLeafTagged{}}, {"RegExportedEmb", RegExportedEmb{}}, {"RegNamed", &RegNamed{}},
+		{"RegBelowSlice", RegBelowSlice{}}, {"EmbReq", EmbReq{}}, {"*EmbHolder", &EmbHolder{}}, {"*StaticReq", &StaticReq{}},
+	}
+	for i, ty := range types {
+		for _, asReq := range []bool{true, false} {
+			var req, resp any = ty.v, RegOK{}
+			if !asReq {
+				req, resp = RegOK{}, ty.v
+			}
+			tab := NewTable()
+			ob := regObs{ReqType: fmt.Sprintf("%T", req), RespType: fmt.Sprintf("%T", resp)}
+			rt := tyOf(tab, reflect.TypeOf(req), "Req", "", &ob.Offending, map[reflect.Type]bool{})
+			pt := tyOf(tab, reflect.TypeOf(resp), "Resp", "", &ob.Offending, map[reflect.Type]bool{})
+			register(&ob, req, resp)
+			term := fmt.Sprintf("(CReg %s %s %s)", rt, pt, core.B(ob.Registered))
+			via := ""
+			for _, o := range ob.Offending {
+				via += o[1] + " "
+			}
+			w.Put(core.Case{ID: fmt.Sprintf("regs-%d-%s-%v", i, ty.name, asReq), Kind: "registry-static", Coq: term, Nontrivial: len(ob.Offending) > 0, Hash: core.Hash(term),
+				Dist:     map[string]any{"offending": len(ob.Offending), "registered": ob.Registered, "path": strings.TrimSpace(via), "tag": "-"},
+				Input:    map[string]any{"req": ob.ReqType, "resp": ob.RespType, "declared_in": "harness/cmd/c17/reg.go"},
+				Observed: ob})
+		}
+	}
 }
